@@ -62,16 +62,21 @@ def run(ctx, chk):
     # ---- path-level classification cache: fn -> {inst id: [(ok, idiom, detail, path)]}
     path_results = {}
 
+    import serializer_rules as SR
+    import encoder_rules as ER
+    failsig = set(ER.public_encoders(prog)) | {g.name for g in SR.subjects(prog)}
+
     def analyse_paths(fname, inline=()):
         X = P.Executor(prog, eff, inline=inline, arith_events=True, loop_bound=1)
         ps = X.run(fname)
         res = {}
+        root = prog.fn(fname)
         for pa in ps:
             st = pa.st
             for idx, e in enumerate(pa.events):
                 if e.kind != "arith":
                     continue
-                ok, idiom, detail = classify_event(prog, pa, idx, e)
+                ok, idiom, detail = classify_event(prog, pa, idx, e, root, failsig)
                 res.setdefault((e.fn.name, e.ins.id), []).append((ok, idiom, detail, pa, e))
         return res
 
@@ -87,7 +92,18 @@ def run(ctx, chk):
     if "claim_bytes" in nontrivial_fns:
         pr.update(analyse_paths("cbor_stream_decode", inline={"claim_bytes"}))
         nontrivial_fns.discard("claim_bytes")
-    for fn in sorted(nontrivial_fns):
+    # unit-internal helpers are audited in the context of the functions they are inlined into (their operands are the
+    # caller's values); only helpers without such a context are audited on their own
+    in_context = set()
+    for g in sorted(prog.funcs):
+        if prog.funcs[g].internal:
+            continue
+        sc = O.static_callees(prog, eff, g)
+        if sc & nontrivial_fns:
+            for key, v in analyse_paths(g, inline=sc).items():
+                pr.setdefault(key, []).extend(v)
+            in_context |= sc | {g}
+    for fn in sorted(nontrivial_fns - in_context):
         pr.update(analyse_paths(fn))
     counts = {}
     ctl_hit = False
@@ -276,7 +292,13 @@ def classify_ir(prog, f, i):
     return None
 
 
-def classify_event(prog, pa, idx, e):
+def _sum_leaves(t):
+    if isinstance(t, tuple) and t[0] == "op" and t[1] == "add":
+        return _sum_leaves(t[3]) + _sum_leaves(t[4])
+    return [t]
+
+
+def classify_event(prog, pa, idx, e, root=None, failsig=()):
     st = pa.st
     op = e.callee
     a, b = e.args
@@ -364,6 +386,29 @@ def classify_event(prog, pa, idx, e):
         if op == "sub" and a == ("arg", e.fn.param_index("source_size")):
             # source_size - read: read is 0 plus FINISHED read counts, each <= the window the decoder was given (C08.read/claim)
             return True, "8-window", ""
+    # 8 (path form): serializer window arithmetic, wherever the running total lives (SSA value, local passed by address to
+    # a helper): SIZE - W and W + r where W sums results of failure-signalling encoders/serializers called on this path
+    # (each <= the window it was given, C07.window) and payload lengths compared against the remaining window
+    if root is not None:
+        pn = {p_["name"]: (j, p_["type"]) for j, p_ in enumerate(root.params)}
+        if pn.get("buffer", (0, ""))[1] == "i8*" and pn.get("buffer_size", (0, ""))[1] == "i64":
+            SIZE = ("arg", pn["buffer_size"][0])
+            results = {pe.res for pe in pa.events[:idx] if pe.kind == "call" and pe.ckind == "lib" and pe.callee in failsig}
+
+            def window_len(x):
+                for t in facts_before:
+                    if t[0] == "icmp" and x in (t[2], t[3]):
+                        o = t[3] if t[2] == x else t[2]
+                        if isinstance(o, tuple) and o[0] == "op" and o[1] == "sub" and o[3] == SIZE:
+                            return True
+                return False
+
+            def total(t):
+                return all(x == ("c", 0) or x in results or window_len(x) for x in _sum_leaves(t))
+            if op == "sub" and a == SIZE and total(b):
+                return True, "8-window", ""
+            if op == "add" and total(a) and total(b):
+                return True, "8-window", ""
     # the claim_bytes failure arm with constant-bounded operands
     if op == "add" and (is_const(a) or is_const(b)):
         c, v = (a, b) if is_const(a) else (b, a)
